@@ -950,14 +950,28 @@ def hoist_new_ifexps(tree, modname, reference, qualnames_fn):
 
 # ---------------------------------------------------------------- new comprehensions back to loops
 
-def _comp_signature(node, local_names):
-    import copy as _c
+def _blank_clone(node, local_names):
+    """copy of the syntax below node (fields only: no parent pointers, no positions) with local names blanked"""
+    if isinstance(node, ast.Name):
+        return ast.Name(id="_L" if node.id in local_names else node.id, ctx=node.ctx)
+    if isinstance(node, ast.AST):
+        new = type(node)()
+        for f in node._fields:
+            try:
+                v = getattr(node, f)
+            except AttributeError:
+                continue
+            if isinstance(v, list):
+                setattr(new, f, [_blank_clone(x, local_names) for x in v])
+            else:
+                setattr(new, f, _blank_clone(v, local_names))
+        return new
+    return node
 
-    class B(ast.NodeTransformer):
-        def visit_Name(self, n):
-            return ast.copy_location(ast.Name(id="_L", ctx=n.ctx), n) if n.id in local_names else n
+
+def _comp_signature(node, local_names):
     try:
-        return ast.unparse(B().visit(_c.deepcopy(node)))
+        return ast.unparse(ast.fix_missing_locations(_blank_clone(node, local_names)))
     except Exception:
         return ast.dump(node)
 
